@@ -493,6 +493,17 @@ class Inputs:
     def parse_value(cls, itype: str, value: str | None) -> tuple[float, ...] | None:
         """Parse the input value."""
 
+        try:
+            return cls._parse_value(itype, value)
+        except ValueError:
+            # The interpreter refuses to convert extremely long digit strings to integers.
+            # No usable date can be that long, so treat it like any other invalid value.
+            return None
+
+    @classmethod
+    def _parse_value(cls, itype: str, value: str | None) -> tuple[float, ...] | None:
+        """Parse the input value."""
+
         parsed = None  # type: tuple[float, ...] | None
         if value is None:
             return value
